@@ -563,7 +563,7 @@ func keysOf(m map[string]bool) []string {
 // exactly the white-space runs that stand between two tags — evaluated on every string of up to 6 items over
 // {<a>, </a>, <br/>, x, space, LF, tab}.
 func ruleC15Spaceless(p *Prog, a *Anchors, r *Report) {
-	r.Begin("R-C15-SPACELESS", "spaceless: one constant pattern/replacement applied until nothing changes; evaluated on all strings of up to 6 items over {<a>,</a>,<br/>,x,space,LF,tab} it deletes exactly the white-space runs that have a tag on both sides", 2)
+	r.Begin("R-C15-SPACELESS", "spaceless: one constant pattern/replacement applied until nothing changes; evaluated on all strings of up to 6 items over {<a>,</a>,<br/>,<a LF b>,x,space,LF,tab} it deletes exactly the white-space runs that have a tag on both sides", 2)
 	ex := p.Method("tagSpacelessNode", "Execute")
 	if ex == nil {
 		r.Unk("anchor", "-", "anchor unresolved: (*tagSpacelessNode).Execute")
@@ -600,7 +600,7 @@ func ruleC15Spaceless(p *Prog, a *Anchors, r *Report) {
 	}
 	// repeated: the replacement stands in a loop, or in a helper every call of which stands in one
 	iterated := inLoop(call) || calledInLoop(cluster, ex, call.Parent(), 0)
-	items := []string{"<a>", "</a>", "<br/>", "x", " ", "\n", "\t"}
+	items := []string{"<a>", "</a>", "<br/>", "<a\nb>", "x", " ", "\n", "\t"}
 	isTag := func(s string) bool { return strings.HasPrefix(s, "<") }
 	isWS := func(s string) bool { return s == " " || s == "\n" || s == "\t" }
 	bad := ""
